@@ -56,7 +56,7 @@ def register(P):
     reg(P, "C07", ["UtpVerif.Props.C07"], ["ack_timeliness", "ack_forcing", "window_reopen"])
     reg(P, "C17", ["UtpVerif.Props.C17"], ["stream_content", "fin_sent", "reset", "rtx_timer"])
     reg(P, "C01", ["UtpVerif.Props.C01", "UtpVerif.Props.C01E2E"], ["stream_content", "read_content"], ["segs", "txring", "rx"])
-    reg(P, "C02", ["UtpVerif.Props.C02"], ["calls_resolve", "ack_timeliness", "rtx_timer", "zero_window_probe", "window_reopen", "idle_promptness"], ["txring", "rx"])
+    reg(P, "C02", ["UtpVerif.Props.C02"], ["calls_resolve", "ack_timeliness", "rtx_timer", "zero_window_probe", "window_reopen", "idle_promptness", "stuck"], ["txring", "rx"])
     reg(P, "C03", ["UtpVerif.Props.C03"], ["calls_resolve", "stream_content", "ack_honesty", "fin_sent", "eof_honest", "completion_honest", "read_content"], ["txring", "rx"])
     reg(P, "C06", ["UtpVerif.Props.C06"], ["stream_content", "retx_cap", "rto_backoff", "karn", "acked_not_resent"], ["segs"])
     reg(P, "C08", ["UtpVerif.Props.C08"], ["calls_resolve", "task_ends", "inactivity_discipline"])
@@ -75,7 +75,7 @@ def register(P):
     P.PROPS["C14"]["oracles"]["datagram_sizes"] = VO.ALL["datagram_sizes"]
     P.PROPS["C14"]["oracles"]["stream_content"] = VO.ALL["stream_content"]
     P.PROPS["C14"]["oracles"]["probe_discipline"] = VO.ALL["probe_discipline"]
-    for _o in ("probe_discipline", "reset", "slow_start", "eof_honest", "ack_forcing", "window_reopen", "cc_accounting", "inactivity_discipline", "completion_honest", "idle_promptness", "read_content", "rx_honesty", "rto_backoff", "karn", "acked_not_resent", "nagle_off"):
+    for _o in ("probe_discipline", "reset", "slow_start", "eof_honest", "ack_forcing", "window_reopen", "cc_accounting", "inactivity_discipline", "completion_honest", "idle_promptness", "read_content", "rx_honesty", "rto_backoff", "karn", "acked_not_resent", "nagle_off", "stuck"):
         P.ORACLE_COMPONENT[_o] = "vsock"
     P.ORACLE_COMPONENT["datagram_sizes"] = "vsock"
     P.PROPS["C04"]["components"].append("vsock")
